@@ -242,11 +242,11 @@ func cmdHincrbyfloat(db *DB, _ string, a []string, tm Time) Exp {
 	}
 	inc, exact, valid := exactFloat(a[2])
 	o, wrong := db.typed(a[0], THash, tm)
+	if !valid || math.IsInf(inc, 0) || math.IsNaN(inc) {
+		return badArg()
+	}
 	if wrong {
 		return WrongType()
-	}
-	if !valid {
-		return ErrE("ERR")
 	}
 	if !exact {
 		return Any("increment is not an exact small binary fraction")
